@@ -7,20 +7,20 @@ T_VERUS = "Verus requires/ensures/invariant contracts injected into functions ex
 TRUST = "Trusted: Verus/Z3; extraction rules R0-R12 (DESIGN 3.1); hand-written assumed contracts on dependencies (prelude/*.rs: melstructs, novasmt, tmelcrypt, stdcode, num, melpow, imbl, rayon/iterators as eager sequences); hash collision-freedom and serialisation injectivity as axioms. "
 CLAIMED = {
  "C01": dict(level="proof", design="DESIGN.md 4/C01",
-   text="Per-operation conservation obligations: check_tx_coins_balanced <=> the balance predicate; check_tx_validity => balanced over the per-denomination input sums; lemma_tx_conserves: for every accepted non-faucet transaction and denomination (outside its own new token / a DoscMint's ERG) outputs + fee = inputs; create_next_state: exact coin-set transition and exact fee-pool/tips accounting; proposer reward moves fee_pool>>16 + tips into one coin exactly; DoscMint ERG bounded by the computed reward; swap settlement pays floor pro-rata shares of what the pool paid out; request selection only settles genuine requests.",
-   note=TRUST + "The induction from these per-operation facts to the whole-history supply statement (sums over the coin map) is the paper argument of DESIGN 4/C01-8, not mechanised; deposit/withdraw settlement, pegging and TIP-909 subsidy arithmetic not yet under contract; mainnet grandfathered faucet is issuance outside the property's list (DESIGN 4/C01).", technique=T_VERUS),
+   text="Per-operation conservation obligations, all discharged: check_tx_coins_balanced <=> the balance predicate; check_tx_validity => balanced over the per-denomination input sums; lemma_tx_conserves (outputs + fee = inputs per denomination outside the listed exceptions); apply_tx_batch_impl: exact coin-set transition and exact fee-pool/tips accounting; proposer reward moves fee_pool>>16 + tips into one coin; DoscMint ERG bounded by the computed reward; melmint settlement proved exact for all four phases: swaps (pro-rata floor shares of what the pool paid out), deposits (shares of the minted liquidity add up to at most what the pool records - the over-mint found here was repaired, fix 5853f91), withdrawals (exactly the redeemed liquidity retired, payouts <= what left the reserves), pegging and the TIP-909 subsidy (touch no coin; issuance into the built-in pools as listed).",
+   note=TRUST + "The induction from these per-operation facts to the whole-history supply statement (sums over the coin map) is the paper argument of DESIGN 4/C01-8, not mechanised; the pre-978392 deposit rule (second output left unspent, the repo's own 'OLD RULES' branch) and the mainnet grandfathered faucet are issuance outside the property's list (DESIGN 4/C01); u128 envelopes listed per clause.", technique=T_VERUS),
  "C03": dict(level="proof", design="DESIGN.md 4/C03",
-   text="Order independence proved over the contracts: lemma_batch_perm (the exact coin-set transition specified by create_next_state's postcondition is invariant under reordering the batch), lemma_fees_perm and lemma_fsum_perm (fee totals, vote sums over hash-map/hash-set enumerations), votes/confirm/seal results specified through order-independent sums; apply_block proved for an arbitrary enumeration of the block's unordered transaction set.",
+   text="Order independence proved over the contracts: lemma_batch_perm (the exact coin-set transition is invariant under reordering the batch), lemma_fees_perm and lemma_fsum_perm (fee totals, vote sums over hash-map/hash-set enumerations); apply_tx_batch_impl's acceptance conditions and result (batch_core) are stated position-free; apply_block proved for an arbitrary enumeration of the block's unordered transaction set; extract_pool_keys_sorted proved to return the named pools sorted and without duplicates, and the settlement phases proved to give per-pool results that do not depend on the order in which pools or requests are visited.",
    note=TRUST + "Thread schedules are not modelled: rayon adapters carry sequential-semantics contracts (A-RAYON; try_fold/try_reduce as one sequential chunk); acceptance conditions of apply_tx_batch_impl are stated position-free (quantified over the batch's members), but a lemma 'batch_core is invariant under permutation of the batch' is not mechanised for the stake / DoscMint clauses.", technique=T_VERUS + " (lemmas over the contracts)"),
  "C02": dict(level="proof", design="DESIGN.md 4/C02",
    text="apply_tx_batch_impl proved (unit batch) against the defined relation batch_core: Ok only if every input is unspent in the prior state or a kept output of the batch (rel_of), no coin is consumed twice (inputs_distinct), every transaction is well-formed, balanced, approved, unlocked and fee-paying (tx_accepted); the resulting coin set is exactly previous + kept outputs (declared value / covenant hash / additional data, this height, NewCustom -> Custom(hash)) + faucet markers - inputs (batch_coins, whole-view postcondition); load_relevant_coins, extract_input_coins, output_coins_from_tx, check_tx_validity, create_next_state each proved in their own unit over the raw-SMT-verified CoinMapping contracts; apply_tx_batch proved a no-op on Err.",
    note=TRUST + "rayon adapters carry sequential-semantics contracts (A-RAYON); envelopes (u128 ranges, the domains of F-C04-index / F-C04-cache / F-C09-melpow) and two state invariants (history_ok, coin_heights_ok) enter as the precondition batch_env; structural rewrites of the batch functions lose the contract anchors (exit 2) and are then decided only by the real-code witness replays.", technique=T_VERUS),
  "C04": dict(level="proof", design="DESIGN.md 4/C04",
-   text="validate_tx_scripts proved Ok <=> (cached or covenant present, decodes, and evaluates truthy on (tx, env)); check_tx_validity proved to approve every input with its own environment under the envelope (pairwise distinct covenant hashes, <= 256 inputs); the two excluded domains are genuine defects listed as known findings with real-code witnesses.",
-   note=TRUST + "Covenant execution is the uninterpreted spec_exec (its semantics is C10); standard-covenant clause not yet mechanised.", technique=T_VERUS),
+   text="validate_tx_scripts proved Ok <=> (cached or covenant present, decodes, and evaluates truthy on (tx, env)); check_tx_validity proved to approve every input with its own environment (id, data, creation height, position, previous header) under the envelope (pairwise distinct covenant hashes, <= 256 inputs: the two excluded domains are genuine defects listed as known findings with real-code witnesses); Covenant::execute proved to be the MelVM run of the covenant's instructions from an empty stack and a heap on which Executor::new_from_env places every environment field at its specified address; run_to_end proved against the one-step semantics.",
+   note=TRUST + "The From<X> for Value conversions are assumed (A-VALCONV); run_to_end is partial correctness (termination not proved); the link between applychk's spec_exec and exec's run_result is by name (A-DET on the stub of Covenant::execute); standard-covenant clause not mechanised.", technique=T_VERUS),
  "C05": dict(level="proof", design="DESIGN.md 4/C05",
-   text="create_next_state: every accepted transaction pays >= floor(weight*mult/65536); fee pool and tips grow by exactly the sum of minimum fees / remainders (fsum over the batch) under the no-overflow envelope; refusal for fees only when some transaction pays strictly less.",
-   note=TRUST + "Transaction::base_fee/weight formula assumed (A-STRUCTS); proposer reward coin (collect_proposer_action_fee) pending in the seal unit.", technique=T_VERUS),
+   text="create_next_state: every accepted transaction pays >= floor(weight*mult/65536); fee pool and tips grow by exactly the sum of minimum fees / remainders (fsum over the batch) under the no-overflow envelope; refusal for fees only when some transaction pays strictly less; collect_proposer_action_fee: fee_pool>>16 plus all tips move into exactly one reward coin for the action's destination, tips reset; seal without an action leaves pool and tips untouched; apply_tip_909: the MEL bought by the subsidy moves from the MEL/SYM reserve into the fee pool exactly.",
+   note=TRUST + "Transaction::base_fee/weight formula assumed (A-STRUCTS).", technique=T_VERUS),
  "C06": dict(level="proof", design="DESIGN.md 4/C06",
    text="apply_block proved: Ok(r) only if header(r) == block.header and r is (next_unsealed; apply the block's transactions in some enumeration; seal with the block's action); Err(WrongHeader) only if that state's header differs; to_block proved to serialise header/transactions/action; seal proved against seal_rel; apply_tx_batch proved a no-op on Err.",
    note=TRUST + "Batch application enters apply_block through the relation batch_result, which unit batch proves for apply_tx_batch_impl; A-DET names deterministic results of exec functions by spec functions.", technique=T_VERUS),
@@ -37,20 +37,20 @@ CLAIMED = {
    text="Covenant::from_bytes proved to decode exactly dec_all(bytes) (whole input, no panic) and to_bytes/hash to produce enc_all(ops); lemmas: decode-then-encode returns the same bytes, encode-then-decode the same program. The per-instruction facts K1/K2 they rest on are discharged by Kani/CBMC on the real compiled OpCode::{decode,encode} in the thorough tier (complete: loop-free over all <=35-byte inputs / all operands) and assumed in the quick tier.",
    note=TRUST + "A-HANDOVER: K1/K2 as stated in lemmas/codec.rs are what the Kani harnesses assert; locality of decode in the unread tail (std::io::Read for &[u8]).", technique=T_VERUS + " + Kani/CBMC full-domain harnesses (thorough)"),
  "C10": dict(level="proof", design="DESIGN.md 4/C10",
-   text="Every arm of Executor::step except Exp (lifted mechanically to one method per instruction) proved equal to the spec semantics sem_inner (stack/heap/pc/loop-stack as a function of the state before), the dispatcher proved to route each opcode to its arm, update_pc_state proved equal to the recursive loop-bookkeeping spec, step = arm then bookkeeping; Value conversions proved. Hence one step is a deterministic function of the state.",
-   note=TRUST + "A-U256/A-CATVEC operation contracts; Exp's result (square-and-multiply) and run_to_end's iteration not yet under contract; clauses not fixed by the property text are characterisations of the pinned code (lemmas/melvm_spec.rs header).", technique=T_VERUS + "; match-arm lifting (R5b)"),
+   text="Every arm of Executor::step except Exp (lifted mechanically to one method per instruction) proved equal to the spec semantics sem_inner, the dispatcher proved to route each opcode to its arm, update_pc_state proved equal to the recursive loop-bookkeeping spec, step = arm then bookkeeping; run_to_end proved: the result is the top of the stack after some number of successful steps reaching the end of the program, or None when a step fails (run_result); Executor::new / new_from_env / Covenant::execute proved; Value conversions proved. Hence execution is a deterministic function of bytecode, transaction and environment.",
+   note=TRUST + "A-U256/A-CATVEC operation contracts; Exp's result (square-and-multiply) is not under contract (runs through an uncovered instruction are unconstrained in run_result); run_to_end is partial correctness; clauses not fixed by the property text are characterisations of the pinned code (lemmas/melvm_spec.rs header).", technique=T_VERUS + "; match-arm lifting (R5b)"),
  "C13": dict(level="proof", design="DESIGN.md 4/C13",
-   text="stake_is_consistent <=> the three conditions; load_stake_info registers exactly the consistent SYM stakes and rejects malformed ones; check_tx_validity rejects inputs whose creating transaction is a registered or new stake; StakeSet::votes/total_votes equal the order-independent sum over stakes with start <= epoch < end; unlock_old keeps exactly e_post_end >= epoch.",
-   note=TRUST + "Lock window over histories (next_unsealed chain) and stakes_hash commitment pending in the seal unit.", technique=T_VERUS),
+   text="stake_is_consistent <=> the three conditions; load_stake_info registers exactly the consistent SYM stakes and rejects malformed ones; check_tx_validity rejects inputs whose creating transaction is a registered or new stake; apply_tx_batch_impl adds exactly the batch's registered stakes to the stake set; StakeSet::votes/total_votes equal the order-independent sum over stakes with start <= epoch < end; unlock_old keeps exactly e_post_end >= epoch; next_unsealed drops exactly the stakes that ended before the new block's epoch.",
+   note=TRUST + "The lock window over whole histories is the composition of these per-block facts (not mechanised as one lemma).", technique=T_VERUS),
  "C14": dict(level="proof", design="DESIGN.md 4/C14",
    text="confirm proved: Some only if every signature verifies over the header hash; given that, Some whenever 3*present > 2*total and None whenever 3*present < 2*total, with present/total defined as order-independent sums over the stake map; monotonicity lemma mechanised. The inverted threshold of the pinned tree was repaired (fix: commit) after the obligations failed.",
    note=TRUST + "Ed25519 verification uninterpreted (sig_ok); header() assumed by contract.", technique=T_VERUS),
  "C15": dict(level="proof", design="DESIGN.md 4/C15",
-   text="The three request-selection functions proved to return exactly the block's transactions that are genuine requests (right kind, unspent outputs, canonically spelled existing pool, non-zero amounts, live pool for swaps); request_pool_key proved to accept only canonical spellings; multiply_frac proved = min(floor(x*n/d), 2^128-1). Four genuine defects found by these obligations were repaired (fix: commits).",
-   note=TRUST + "Settlement loops (pro-rata division, pool movement) and price properties pending; PoolState arithmetic assumed (A-STRUCTS).", technique=T_VERUS),
+   text="Request selection proved to return exactly the block's genuine requests (right kind, unspent outputs, canonically spelled pool, non-zero amounts, live pool for swaps); extract_pool_keys_sorted / transactions_for_pool proved (each named pool once, with exactly its requests); the three settlement phases proved exact, per pool and per request: swaps at one post-deposit price for both directions with floor pro-rata shares, deposits with shares of the minted liquidity, withdrawals with shares of both payouts; nothing else moves (whole-view postconditions swaps_done / deps_done / wds_done); multiply_frac = min(floor(x*n/d), 2^128-1). Five genuine defects found by these obligations were repaired (fix: commits).",
+   note=TRUST + "PoolState::{swap_many, deposit, withdraw} arithmetic assumed (A-STRUCTS, melstructs); the pre-978392 deposit rule is characterised only by its frame; envelopes: deposit weights fit u128, redeemed liquidity within the pool's (wd_env).", technique=T_VERUS),
  "C16": dict(level="proof", design="DESIGN.md 4/C16",
-   text="create_builtins proved to leave MEL/SYM, MEL/ERG (and ERG/SYM under TIP-902) present with 10^9/10^9/10^9 when absent and untouched otherwise; preseal_melmint proved to keep the built-in pools present and live through its phases and the four pool-count assertions discharged; seal/apply_block discharge their assertions; swap settlement keeps a pool live.",
-   note=TRUST + "deposit/withdraw/pegging phases enter through assumed phase contracts; liquidity backing (tokens <= pool liquidity over histories) is the inductive argument of DESIGN 4/C16-2, not mechanised.", technique=T_VERUS),
+   text="create_builtins proved to leave MEL/SYM, MEL/ERG (and ERG/SYM under TIP-902) present with 10^9/10^9/10^9 when absent and untouched otherwise; every settlement phase, process_pegging and apply_tip_909 proved to keep the built-in pools present and live and every pool either live with non-zero liquidity or empty (pools_ok); deposits proved to hand out at most the liquidity the pool records (the over-mint found by this obligation was repaired: fix 5853f91), withdrawals to retire exactly what is redeemed; the four pool-count assertions discharged.",
+   note=TRUST + "The backing invariant itself (tokens in unspent coins <= pool liquidity, strictly below it for built-in pools) enters the withdrawal phase as the envelope wd_env; its induction over histories (DESIGN 4/C16-2) is not mechanised.", technique=T_VERUS),
  "C17": dict(level="proof", design="DESIGN.md 4/C17",
    text="move_action_fee_multiplier proved for every multiplier 0..2^128 and every delta: exact step trunc(max(m/128,2)*d/128) on [2, 2^70], clamped outside, |step| <= max(m/128,2), no overflow, frame. Repaired (fix: commit) after the overflow/underflow obligations failed.",
    note=TRUST + "seal(None) frame pending in the seal unit.", technique=T_VERUS),
@@ -61,16 +61,16 @@ CLAIMED = {
    text="handle_faucet_tx proved: mainnet non-grandfathered => MalformedTx; marker present => DuplicateTx; otherwise the zero-MEL marker is inserted; create_next_state proved to carry markers of all faucets of the batch and to refuse same-batch duplicates.",
    note=TRUST + "Hex comparison with the grandfathered hash modelled as an opaque predicate (literal pinned by text); marker persistence over histories is the frame argument of DESIGN 4/C19.", technique=T_VERUS),
  "C20": dict(level="proof", design="DESIGN.md 4/C20",
-   text="CoinMapping::{insert_coin, remove_coin, insert_coin_count, coin_count} proved against the raw SMT view: exact effect on coins and counts, and preservation of counts_ok (count == number of coins per covenant hash, no zero entries); create_next_state and handle_faucet_tx preserve it (with the origin_ok state invariant).",
-   note=TRUST + "A-PHYS: a tree holds < 2^63 entries. Activation loop and melmint call sites pending.", technique=T_VERUS),
+   text="CoinMapping::{insert_coin, remove_coin, insert_coin_count, coin_count} proved against the raw SMT view: exact effect on coins and counts, and preservation of counts_ok (count == number of coins per covenant hash, no zero entries); create_next_state, handle_faucet_tx, collect_proposer_action_fee and all melmint settlement functions preserve it (with the origin_ok state invariant).",
+   note=TRUST + "A-PHYS: a tree holds < 2^63 entries. The TIP-906 activation rebuild (apply_tip_906_for_next_state) is an assumed contract.", technique=T_VERUS),
  "C17": dict(level="proof", design="DESIGN.md 4/C17",
    text="move_action_fee_multiplier proved for every multiplier 0..2^128 and every delta: exact step trunc(max(m/128,2)*d/128) on [2, 2^70], clamped outside, |step| <= max(m/128,2), no overflow, frame. Repaired (fix: commit) after the overflow/underflow obligations failed.",
    note=TRUST + "seal(None) frame pending in the seal unit.", technique=T_VERUS),
 }
 NA = {}
 CLAIMED["C09"] = dict(level="other", design="DESIGN.md 4/C09",
-   text="Panic-freedom is the implicit-safety obligation of every function under contract (Verus proves absence of arithmetic overflow, out-of-range index/slice, division by zero, unwrap of None/Err and failed assert for ALL inputs satisfying the stated preconditions): 180 such obligations over the validation path (apply_tx_batch_impl, load_relevant_coins, check_tx_validity, validate_and_get_doscmint_speed, create_next_state, seal, preseal_melmint, process_swaps_for_single_pool, Executor::step and its arms, Covenant::from_bytes, confirm, ...). Panic conditions of dependencies (melstructs CoinValue arithmetic, PoolState, num, melpow) are preconditions of their assumed contracts, so every call site has to establish them. Five panics found this way were repaired (fix: commits) and one (melpow) is a known finding.",
-   note=TRUST + "Level 'other': the preconditions that are envelopes (supply < 2^127-style u128 ranges, listed per clause as 'C09 envelope') are assumed, not derived from a reachable-state invariant; termination/hang-freedom is only partially covered (decreases on opcodes_weight, step; run_to_end's loop and melpow are not); functions still entered through assumed contracts (process_deposits/withdrawals/pegging, apply_tip_909, GenesisConfig) are not covered; allocation failure and stack depth are outside Verus.", technique=T_VERUS + " (implicit safety obligations)")
+   text="Panic-freedom is the implicit-safety obligation of every function under contract (Verus proves absence of arithmetic overflow, out-of-range index/slice, division by zero, unwrap of None/Err and failed assert for ALL inputs satisfying the stated preconditions): 203 such obligations over the validation path (apply_tx_batch_impl, load_relevant_coins, check_tx_validity, validate_and_get_doscmint_speed, create_next_state, seal, preseal_melmint, process_swaps_for_single_pool, Executor::step and its arms, Covenant::from_bytes, confirm, ...). Panic conditions of dependencies (melstructs CoinValue arithmetic, PoolState, num, melpow) are preconditions of their assumed contracts, so every call site has to establish them. Five panics found this way were repaired (fix: commits) and one (melpow) is a known finding.",
+   note=TRUST + "Level 'other': the preconditions that are envelopes (supply < 2^127-style u128 ranges, listed per clause as 'C09 envelope') are assumed, not derived from a reachable-state invariant; termination/hang-freedom is only partially covered (decreases on opcodes_weight, step; run_to_end's loop and melpow are not); functions still entered through assumed contracts (apply_tip_906_for_next_state, transactions_root_hash, GenesisConfig::realize) are not covered; check_tx_validity's genesis-only call of seal(None) uses seal's A-DET name only; allocation failure and stack depth are outside Verus.", technique=T_VERUS + " (implicit safety obligations)")
 def main():
     props = [json.loads(l) for l in open(os.path.join(VERIF, "properties.jsonl"))]
     checks, na = [], []
